@@ -138,6 +138,13 @@ add("C07", "Hypothesis generated acquisition value tables for the two discrete o
     "Near-ties at 1e-9 relative accept either choice; Thompson acquisition checked against the tables it actually returned (recording subclass bound at the name the algorithm imports).",
     "DESIGN.md section 3 C07")
 
+add("C18", "model-based testing of refine histories with exact dyadic arithmetic; stateful testing of VOGP_AD runs with a logging wrapper on refine_design",
+    "(a) generated sequences of refine_design / update / should_refine_design calls on the adaptive design space (d=1..3, max depth 2..5, any leaf below the maximum depth in any order) "
+    "checked with exact rational arithmetic: 2^d children, half side, tiling of the parent, centres, depth+1 <= max, parent's region, earlier entries untouched, leaves tile the cube; "
+    "(b) VOGP_AD runs on generated continuous problems: after every step S and P are leaves with interior-disjoint cells, all leaves tile the unit cube, a refined node is replaced by its "
+    "children in the same set, every member of P is at the maximum depth.",
+    "Cells are dyadic (Fractions exact); VOGP_AD with generated hyper-parameters; in_dim >= out_dim (F12 under C06/C15 otherwise).", "DESIGN.md section 3 C18")
+
 PENDING = {}
 
 
